@@ -3,6 +3,7 @@ package main
 import (
 	"fmt"
 	"math"
+	"runtime/metrics"
 	"strconv"
 	"strings"
 
@@ -87,6 +88,7 @@ type Outcome struct {
 	T0      int64  `json:"-"`
 	T1      int64  `json:"-"`
 	Done    bool   `json:"-"`
+	Alloc   uint64 `json:"-"` // bytes allocated by the process while the operation ran
 }
 
 func (o Outcome) class() string {
@@ -100,6 +102,21 @@ func (o Outcome) class() string {
 	default:
 		return "error"
 	}
+}
+
+var allocSample = []metrics.Sample{{Name: "/gc/heap/allocs:bytes"}}
+
+// allocBytes reads the cumulative number of heap bytes allocated by the process (cheap, no
+// stop-the-world). Work done inside the standard library is invisible to the yield counter;
+// the allocation volume is the deterministic stand-in for it.
+//
+//go:norace
+func allocBytes() uint64 {
+	metrics.Read(allocSample)
+	if allocSample[0].Value.Kind() == metrics.KindUint64 {
+		return allocSample[0].Value.Uint64()
+	}
+	return 0
 }
 
 // ---------- generators ----------
@@ -302,6 +319,8 @@ func buildArg(a Arg, handles []value.Value) value.Value {
 func (r *runner) doOp(op *Op, handles []value.Value) (out Outcome) {
 	out.Y0 = simrt.Mark("op-start")
 	out.T0 = simrt.SimNow()
+	a0 := allocBytes()
+	defer func() { out.Alloc = allocBytes() - a0 }()
 	defer func() {
 		// not reached on panic (the task dies) -- Done stays false
 	}()
@@ -403,6 +422,8 @@ type RunOut struct {
 	Outcomes [][]Outcome
 	Host     *hostState
 	Races    int
+	// goroutines with library frames that are still alive after the teardown of all tasks
+	Unmanaged []unmanagedG
 }
 
 func simConfig(sim SimCfg, b Budgets) simrt.Config {
@@ -473,5 +494,5 @@ func runScript(sc *Script, sim SimCfg, b Budgets) *RunOut {
 		}
 	})
 	host = nil
-	return &RunOut{Res: res, Outcomes: r.outcomes, Host: hs, Races: simrt.RaceErrors() - races0}
+	return &RunOut{Res: res, Outcomes: r.outcomes, Host: hs, Races: simrt.RaceErrors() - races0, Unmanaged: unmanagedAfterRun()}
 }
